@@ -26,7 +26,7 @@ LEVEL_NOTE = ('Proved for all n, all schedules: safety, exactly-once callback, a
               'transition (the real functions run under the monitor write lock; the lock-free fast path of addto_nb_tasks is treated as atomic). '
               'Application discipline assumed (guards of the model, respected by the harness): a process sends only while it has work; work appears on a '
               'workless process only before taskpool_ready or between incoming_message_start and _end. uint32 counters modelled as naturals (no wrap-around). '
-              'Real multi-rank PTG runs with --dynamic-termdet are not part of this check. Trusted: Lean kernel, propext/Classical.choice/Quot.sound, harness, '
+              'Real multi-rank runs: one PTG program compiled with --dynamic-termdet on 1..4 ranks (task counts and return of parsec_context_wait), not trace-checked against the model. Trusted: Lean kernel, propext/Classical.choice/Quot.sound, harness, '
               'differential testing as tie.')
 TECHNIQUE = 'Lean 4 proof (inductive invariant with history variables, edge-local protocol invariant, counting argument) + differential correspondence with the real module + model exploration for the liveness bound'
 ASSUMPTIONS = ['module API calls are atomic w.r.t. each other (monitor write lock)',
@@ -196,6 +196,48 @@ def check_case(ctx, res, exe, env, ops, impl, model, tag, dist):
     return facts
 
 
+def build_ptg(ctx):
+    """Generate (parsec-ptgpp --dynamic-termdet), compile and link the real PTG program of harness/C11_ptg.jdf."""
+    ptgpp = os.path.join(ctx.build, 'parsec', 'interfaces', 'ptg', 'ptg-compiler', 'parsec-ptgpp')
+    d = ctx.path('ptg')
+    os.makedirs(d, exist_ok=True)
+    rc, out, err = pv.sh([ptgpp, '--dynamic-termdet', '--noline', '-E', '-i', os.path.join(pv.ROOT, 'harness', 'C11_ptg.jdf'), '-o', 'C11_ptg'], cwd=d, timeout=300)
+    if rc != 0 or not os.path.exists(os.path.join(d, 'C11_ptg.c')):
+        return None, 'parsec-ptgpp failed: ' + (out + err)[-1500:]
+    exe = os.path.join(d, 'C11_ptg')
+    ok, log = pv.cc_harness(os.path.join(d, 'C11_ptg.c'), exe, ctx.build, extra=['-I' + d, '-w'], sanitize=False)
+    return (exe, '') if ok else (None, 'compile of generated code failed: ' + log[-1500:])
+
+
+def run_ptg(ctx, res, dist):
+    """Tie (b): real multi-rank runs of a PTG program whose completion is detected by the four-counter module."""
+    exe, log = build_ptg(ctx)
+    if exe is None:
+        res.infra_errors.append('C11_ptg: ' + log); return
+    env = {'OMPI_ALLOW_RUN_AS_ROOT': '1', 'OMPI_ALLOW_RUN_AS_ROOT_CONFIRM': '1'}
+    runs = [(2, 0)] if ctx.quick else [(1, 0), (2, 0), (3, 0), (4, 0), (2, 1)]
+    dist['ptg_runs'] = []
+    for ranks, late in runs:
+        e = dict(env); e['C11_LATE_TASKPOOL'] = str(late)
+        tmo = 240 if ctx.quick else 420
+        rc, out, err = pv.sh(['timeout', '-s', 'KILL', str(tmo), 'mpiexec', '-x', 'C11_LATE_TASKPOOL', '-n', str(ranks), '--oversubscribe', exe], env=e, timeout=tmo + 60)
+        lines = [l for l in out.splitlines() if l.startswith('C11_ptg rank')]
+        good = rc == 0 and len(lines) == ranks and all(re.search(r'total (\d+) expected \1$', l) for l in lines)
+        dist['ptg_runs'].append({'ranks': ranks, 'taskpool_after_context_start': bool(late), 'rc': rc, 'ok': good, 'report': lines[:4]})
+        res.evaluations += 1
+        if good:
+            res.traces_validated += 1
+            continue
+        if rc in (137, -9, 124):
+            key = 'C11-live-real: dynamic-termdet PTG, taskpool created %s parsec_context_start' % ('after' if late else 'before')
+            what = ('real run on %d ranks (%s): every task ran but parsec_context_wait never returned within %d s: the termination is never detected '
+                    '(four-counter UP/DOWN messages are never received)' % (ranks, 'taskpool created after parsec_context_start' if late else 'taskpool created before parsec_context_start', tmo))
+        else:
+            key = 'C11-safe-real: dynamic-termdet PTG on %d ranks' % ranks
+            what = 'real run on %d ranks exited with %d; reports: %s; stderr: %s' % (ranks, rc, lines[:4], err[-400:])
+        res.violations.append({'key': key, 'what': what, 'case': ['mpiexec -n %d C11_ptg (C11_LATE_TASKPOOL=%d)' % (ranks, late)]})
+
+
 def run(ctx, res, cases=None):
     exe = ctx.path('C11')
     ok, log = pv.cc_harness(os.path.join(pv.ROOT, 'harness', 'C11.c'), exe, ctx.build, sanitize=True)
@@ -233,7 +275,9 @@ def run(ctx, res, cases=None):
     for v in gviols:
         res.violations.append({'key': 'harness: ' + v, 'what': v})
     if rc != 0:
-        last = gcases[-1]['ops'] if gcases else []
+        last = list(gcases[-1]['ops']) if gcases else []
+        if gcases and gcases[-1]['ops']:      # the last line may be cut by the abort
+            gcases[-1]['ops'].pop(); gcases[-1]['impl'].pop()
         small = last
         res.violations.append({'key': 'crash: ' + ' ; '.join(small[-40:]), 'what': 'real code crashed / assertion / sanitizer abort (rc=%d) in generated case %d after %d ops: %s' % (rc, len(gcases) - 1, len(last), err[-500:]), 'case': small})
     flat = []
@@ -280,9 +324,10 @@ def run(ctx, res, cases=None):
             bound = 7 * (n - 1)
             if mm.group(2) != '1' or int(mm.group(1)) > bound:
                 res.violations.append({'key': 'C11-live-explore: ' + ' ; '.join(ops), 'what': 'model exploration from a quiescent state: %s (bound %d)' % (r, bound), 'case': ops + ['explore']})
+    run_ptg(ctx, res, dist)
     res.rule = ('corpus cases, then unstructured scripts (rejection rules), then cases generated by the harness from the real state: 1..%d processes, startup work, '
                 'PRNG choice among enabled operations (ready / workload changes / send / incoming start / end / control delivery in arbitrary order, held messages), '
-                'then drain; every operation compared with the Lean model; distinct = distinct op sequence; non-trivial = at least 2 processes and termination detected' % maxn)
+                'then drain; every operation compared with the Lean model; distinct = distinct op sequence; non-trivial = at least 2 processes and termination detected; plus real mpiexec runs of a --dynamic-termdet PTG program (2 ranks quick; 1..4 ranks and the late-taskpool order thorough)' % maxn)
     res.samples = samples
     dist.update({k: v for k, v in gstats.items()})
     res.extra['input_distribution'] = dist
